@@ -136,12 +136,12 @@ fn build_stable(c: &Case, vac: Option<u16>) -> Built<G2> {
     let mut dummies = Vec::new();
     let pat = vac.unwrap_or(0);
     for i in 0..c.n {
-        if pat & (1 << i) != 0 {
+        if i < 16 && pat & (1 << i) != 0 {
             dummies.push(g.add_node(mk_node(99, &log, &call)));
         }
         ix.push(g.add_node(mk_node(i, &log, &call)));
     }
-    if pat & (1 << c.n) != 0 {
+    if c.n < 16 && pat & (1 << c.n) != 0 {
         dummies.push(g.add_node(mk_node(99, &log, &call)));
     }
     // dummies are wired into the graph before they are removed, so removal
